@@ -707,6 +707,231 @@ func runC20(c *engine.Ctx) {
 		})
 		c.Floor(k, 1)
 	}
+
+	checkWaitClock(c, "R8")
+	checkSidWorker(c, "R9")
+}
+
+// checkWaitClock (R8): the server computes each party's ReadTimeoutMs as "listen this long after your own send delay"
+// (timeout = max(delays)+5000 − own delay). The client must therefore start the read clock after the delay: every
+// time.Now() from which a read deadline in pkg/nathole derives is taken at a point from which the SendDelayMs sleep can
+// no longer be reached.
+func checkWaitClock(c *engine.Ctx, rule string) {
+	c.Rule(rule, "MakeHole: no time.Now() that feeds a SetReadDeadline of the detection wait is taken before the SendDelayMs sleep (the instructed read timeout counts from the end of the party's own send delay)")
+	p := c.P
+	mh := fn(c, "pkg/nathole.MakeHole")
+	delayF := field(c, "pkg/msg", "NatHoleDetectBehavior", "SendDelayMs")
+	if mh == nil || delayF == nil {
+		return
+	}
+	var sleeps []ssa.Instruction
+	engine.ForEachInstr(mh, func(in ssa.Instruction) {
+		if call, ok := in.(ssa.CallInstruction); ok {
+			if o := engine.CalleeObj(call); o != nil && o.Pkg() != nil && o.Pkg().Path() == "time" && o.Name() == "Sleep" {
+				if engine.Provenance(call.Common().Args[0], engine.ProvOpts{}).HasField(delayF) {
+					sleeps = append(sleeps, in)
+				}
+			}
+		}
+	})
+	c.Check(len(sleeps) >= 1, "pkg/nathole.MakeHole>send-delay", mh.Pos(), 1, nil, "MakeHole sleeps for SendDelayMs (%d site(s))", len(sleeps))
+	pkgFns := allFuncsOfPkg(mh.Pkg)
+	// resolve the time.Now() calls a value derives from, through parameters, free variables and local cells
+	var nows func(v ssa.Value, depth int, seen map[ssa.Value]bool) (out []ssa.Instruction, opaque []ssa.Value)
+	nows = func(v ssa.Value, depth int, seen map[ssa.Value]bool) (out []ssa.Instruction, opaque []ssa.Value) {
+		if depth > 8 || seen[v] {
+			return
+		}
+		seen[v] = true
+		add := func(o []ssa.Instruction, q []ssa.Value) { out = append(out, o...); opaque = append(opaque, q...) }
+		switch x := v.(type) {
+		case *ssa.Call:
+			o := engine.CalleeObj(x)
+			if o != nil && o.Pkg() != nil && o.Pkg().Path() == "time" {
+				switch o.Name() {
+				case "Now":
+					out = append(out, x)
+					return
+				case "Add":
+					add(nows(x.Call.Args[0], depth+1, seen))
+					return
+				}
+			}
+			opaque = append(opaque, v)
+		case *ssa.Parameter:
+			host := x.Parent()
+			idx := -1
+			for i, pr := range host.Params {
+				if pr == x {
+					idx = i
+				}
+			}
+			hobj, _ := host.Object().(*types.Func)
+			found := false
+			for _, g := range pkgFns {
+				if hobj == nil {
+					break
+				}
+				for _, call := range engine.CallsTo(g, hobj) {
+					args := engine.CallArgs(call)
+					if idx < len(args) {
+						found = true
+						add(nows(args[idx], depth+1, seen))
+					}
+				}
+			}
+			if !found {
+				opaque = append(opaque, v)
+			}
+		case *ssa.FreeVar:
+			if b := engine.ClosureBinding(x); b != nil {
+				add(nows(b, depth+1, seen))
+			} else {
+				opaque = append(opaque, v)
+			}
+		case *ssa.UnOp:
+			if x.Op == token.MUL {
+				add(nows(x.X, depth+1, seen))
+				return
+			}
+			opaque = append(opaque, v)
+		case *ssa.Alloc:
+			n := 0
+			for _, ref := range *x.Referrers() {
+				if st, ok := ref.(*ssa.Store); ok && st.Addr == ssa.Value(x) {
+					n++
+					add(nows(st.Val, depth+1, seen))
+				}
+			}
+			for _, fn2 := range x.Parent().AnonFuncs {
+				_ = fn2
+			}
+			// a cell without stores is the zero time: no deadline
+		case *ssa.Phi:
+			for _, e := range x.Edges {
+				add(nows(e, depth+1, seen))
+			}
+		case *ssa.Const:
+		default:
+			opaque = append(opaque, v)
+		}
+		return
+	}
+	// lift an instruction to the points of MakeHole that lead to it
+	var lift func(in ssa.Instruction, depth int) []ssa.Instruction
+	lift = func(in ssa.Instruction, depth int) []ssa.Instruction {
+		host := in.Parent()
+		if host == mh {
+			return []ssa.Instruction{in}
+		}
+		if depth > 4 {
+			return nil
+		}
+		var out []ssa.Instruction
+		if host.Parent() != nil {
+			engine.ForEachInstr(host.Parent(), func(x ssa.Instruction) {
+				if mc, ok := x.(*ssa.MakeClosure); ok && mc.Fn == host {
+					out = append(out, lift(x, depth+1)...)
+				}
+			})
+			return out
+		}
+		hobj, _ := host.Object().(*types.Func)
+		for _, g := range pkgFns {
+			if hobj == nil {
+				break
+			}
+			for _, call := range engine.CallsTo(g, hobj) {
+				out = append(out, lift(call, depth+1)...)
+			}
+		}
+		return out
+	}
+	n := 0
+	for _, f := range pkgFns {
+		// only the detection wait: functions reachable from MakeHole
+		engine.ForEachInstr(f, func(in ssa.Instruction) {
+			call, ok := in.(ssa.CallInstruction)
+			if !ok {
+				return
+			}
+			o := engine.CalleeObj(call)
+			if o == nil || o.Name() != "SetReadDeadline" {
+				return
+			}
+			args := engine.CallArgs(call)
+			origins, opaque := nows(args[len(args)-1], 0, map[ssa.Value]bool{})
+			for _, o := range origins {
+				pts := lift(o, 0)
+				for _, pt := range pts {
+					n++
+					var bad []string
+					for _, s := range sleeps {
+						if engine.InstrReaches(pt, s) {
+							bad = append(bad, "sleep at "+p.Pos(s.Pos()))
+						}
+					}
+					c.Check(len(bad) == 0, fmt.Sprintf("%s>read-clock@%s", p.FuncName(f), p.FuncName(o.Parent())), pt.Pos(), 1, bad,
+						"the read clock (time.Now at %s) starts after the send delay", p.Pos(o.Pos()))
+				}
+			}
+			for _, q := range opaque {
+				if len(lift(in, 0)) > 0 {
+					c.Undecide(fmt.Sprintf("%s>read-clock-origin", p.FuncName(f)), in.Pos(), "cannot tell when the deadline %s was computed", engine.Describe(q))
+				}
+			}
+		})
+	}
+	c.Floor(n, 1)
+}
+
+// checkSidWorker (R9): the goroutine started by XTCPProxy.Run relays every visitor's session id to the proxy owner for
+// the life of the proxy. It may end only when the proxy is closed; ending on a transient failure (no work connection in
+// time) leaves a registered proxy whose visitors all time out, and HandleVisitor's notification send finds no reader.
+func checkSidWorker(c *engine.Ctx, rule string) {
+	c.Rule(rule, "XTCPProxy.Run's relay goroutine returns only through the closeCh arm of its select (or when the sid channel is closed)")
+	run := fn(c, "server/proxy.XTCPProxy.Run")
+	closeF := field(c, "server/proxy", "XTCPProxy", "closeCh")
+	if run == nil || closeF == nil {
+		return
+	}
+	n := 0
+	for _, af := range run.AnonFuncs {
+		var sel *ssa.Select
+		closeIdx := -1
+		engine.ForEachInstr(af, func(in ssa.Instruction) {
+			if s, ok := in.(*ssa.Select); ok {
+				for i, stt := range s.States {
+					if lf, _ := engine.LoadedField(stt.Chan); lf == closeF {
+						sel, closeIdx = s, i
+					}
+				}
+			}
+		})
+		if sel == nil {
+			continue
+		}
+		n++
+		c.AllPaths("server/proxy.XTCPProxy.Run>relay-ends-on-close", engine.PathCheck{Fn: af, From: sel, Sink: engine.IsReturn, KeepLoopFacts: true,
+			Pred: func(st *engine.PathState) string {
+				for _, l := range st.Lits {
+					ex, ok := l.X.(*ssa.Extract)
+					if !ok || ex.Tuple != ssa.Value(sel) {
+						continue
+					}
+					if ex.Index == 0 && l.Op == token.EQL && l.Val {
+						if k, ok := engine.ConstInt(l.Y); ok && int(k) == closeIdx {
+							return ""
+						}
+					}
+					if ex.Index >= 1 && l.Op == token.ILLEGAL && !l.Val {
+						return "" // a comma-ok receive reported the channel closed
+					}
+				}
+				return "the relay goroutine ends although the proxy is still registered: later visitors of this proxy are never relayed to the owner"
+			}}, "return ⇒ closeCh arm")
+	}
+	c.Floor(n, 1)
 }
 
 // checkNatholeAdmission / checkNatholeExits are the C08.R4/R5 obligations re-evaluated under C20's rule R5.
